@@ -46,6 +46,14 @@ type world struct {
 	steps     int            // driver actions so far (each costs 1 ms of virtual time)
 	rejNext   [2]int         // reject window (first call, length) of the next incarnation started
 	blockFile bool           // while a dead incarnation is torn down no tokens file may change
+	// CAS retries (conflict_test.go): a recorder whose planned call lost its first attempt is parked here until
+	// the driver has run the interloper (the writer that overtook it) and resumes it
+	parked       *recorder
+	interloper   func(w *world)
+	inInterloper bool
+	lowestGen    bool // the scripted generators pick the LOWEST free tokens (deterministic generators propose the same candidates)
+	stalls       int
+	confNext     int // confAt of the next incarnation started
 	fatal     string
 }
 
@@ -183,6 +191,9 @@ type recorder struct {
 	calls   int    // CAS calls so far (reject windows are counted in these)
 	rejFrom int    // 0 = none; the store rejects the calls rejFrom .. rejFrom+rejLen-1 of this incarnation
 	rejLen  int
+	confAt  int           // 0 = never; k = the first attempt of the k-th CAS call of this incarnation is lost
+	stalled bool          // parked between the lost attempt and the retry
+	resume  chan struct{} // closed by the driver after the interloper has run
 }
 
 var _ kv.Client = (*recorder)(nil)
@@ -230,6 +241,29 @@ func (r *recorder) CAS(ctx context.Context, key string, f func(in any) (out any,
 	if r.reject {
 		w.log(ev{"k": "casfail", "i": r.id, "now": w.now()})
 		return errRejected
+	}
+	if r.confAt > 0 && r.calls == r.confAt && !w.inInterloper && w.parked == nil {
+		// the first attempt of this call loses a race: the callback is evaluated on the current content and its
+		// result is thrown away (what a store does on a conflicting write); before the retry somebody else
+		// writes (the driver's interloper).  Whatever the callback computed in the lost attempt must not
+		// survive into the retry.
+		cur, _ := w.inner.Get(ctx, key)
+		func() {
+			defer func() { _ = recover() }()
+			_, _, _ = f(cur)
+		}()
+		w.log(ev{"k": "stall", "i": r.id, "now": w.now()})
+		w.stalls++
+		r.stalled = true
+		r.resume = make(chan struct{})
+		w.parked = r
+		w.mu.Unlock()
+		<-r.resume
+		w.mu.Lock()
+		r.stalled = false
+		if r.dead {
+			return errDead
+		}
 	}
 	var inSnap, outSnap any = w.project(nil), nil
 	calls := 0
